@@ -57,6 +57,16 @@ c the natural default (as for ebb1/ebb2, which its dialog initialises)
 	return
 	end
 
+	subroutine vf_getspthe1(tab,smax)
+	dimension tab(4300)
+	common/vfspthe/spthe1(4300),spmax
+	do i=1,4300
+	   tab(i)=spthe1(i)
+	enddo
+	smax=spmax
+	return
+	end
+
 	subroutine vf_seteta(c)
 	dimension c(7)
 	common/eta_nme/chi_GTw,chi_Fw,chip_GT,chip_F,chip_T,
